@@ -3,6 +3,7 @@ import CoapVerif.Model.Reader
 import CoapVerif.Model.ReaderPrograms
 import CoapVerif.Lemmas.Reader
 import CoapVerif.Spec.Dispatch
+import CoapVerif.Generated.Dedup
 /-!
 # C11 — each received message is processed once; handlers may call back
 
@@ -182,6 +183,15 @@ theorem doInternal_waits_preceded :
     tryReplaceChecksCurrentFlagThenClosesAndSpawns = true := by
   decide +kernel
 
+/-- **copy_waits_after_handover (tie to the source; repair F36).** The one lock the receive path itself waits for while it
+    holds the reader loop is the per-message-ID lock of `udp/client handleReq` (held by the handler of the original while
+    a retransmitted copy of that request arrives).  In today's source the copy tries the lock first and asks for a
+    replacement loop before it waits (`copyWaitsAfterHandover`, re-read from the AST on every run): the queue behind the
+    copy keeps moving, so the answer to the handler's own nested request is not parked behind it.  (Before the repair the
+    loop waited with the queue in its hand: `scn udp 16 0 0 arrivem:1:g1:con:+7000 ack:1 dup:1&sep:1 …` hung until the
+    nested request's deadline.) -/
+theorem copy_waits_after_handover : Generated.Dedup.copyWaitsAfterHandover = true := by decide
+
 /-- … hence a nested `Do` without limiter (limits 0) is a well-formed handler program, on both transports — whether or not the
     source hands the loop over before the limiter (the proof does not look at those facts). -/
 theorem do_unlimited_wf (udp : Bool) (key k : Nat) :
@@ -221,5 +231,6 @@ open CoapVerif.Props.C11
 #print axioms nested_any_depth
 #print axioms queue_drains
 #print axioms doInternal_waits_preceded
+#print axioms copy_waits_after_handover
 #print axioms do_unlimited_wf
 end Audit
